@@ -237,7 +237,7 @@ func c11r3(c *core.Ctx) {
 
 func c11r4(c *core.Ctx) {
 	p := c.P
-	allowed := map[string]bool{"GetValueFromConnection": true, "UpdateValueFromConnection": true, "IsObservable": true}
+	allowed := map[string]bool{"GetValueFromConnection": true, "UpdateValueFromConnection": true, "IsObservable": true, "IsReadable": true, "IsWritable": true} // the permission predicates themselves are pure (C11-R5)
 	used := map[string]bool{}
 	bad := 0
 	for _, f := range libFuncs(p) {
